@@ -118,7 +118,7 @@ def run_shard(args):
     res = core.Result(prop, tier, seed + 1000003 * shard)
     res.shard, res.nshards = shard, nshards
     if shard == 0:
-        props.run_corpus(prop, res)
+        guarded(prop, res, lambda r: props.run_corpus(prop, r))
     guarded(prop, res, props.CHECKS[prop])
     for (txt, g_) in core.INTERLEAVE_FAILURES[:20]:
         res.fail("property", "%s (call discipline): %s" % (prop, txt), dict(type="game", game=g_))
@@ -172,11 +172,11 @@ def main():
         import props
         res = core.Result(prop, tier, seed)
         if args.replay:
-            props.replay(prop, res, args.replay)
+            guarded(prop, res, lambda r: props.replay(prop, r, args.replay))
         elif tier == "thorough":
             run_thorough(prop, tier, seed, res)
         else:
-            props.run_corpus(prop, res)
+            guarded(prop, res, lambda r: props.run_corpus(prop, r))
             guarded(prop, res, props.CHECKS[prop])
         for (txt, g_) in core.INTERLEAVE_FAILURES[:20]:
             res.fail("property", "%s (call discipline): %s" % (prop, txt), dict(type="game", game=g_))
